@@ -47,6 +47,20 @@ def effective(u, cfg):
     """The unit as the model sees it: (present, in_baseline, results-dict, pev).  Missing baseline units
     are dropped (policy 'drop') or become 0 votes at 0 percent (policy 'zero')."""
     in_base = u["in_baseline"] and u["postal"] in cfg["states"]
+    needed = set()
+    for e in cfg["estimands"]:
+        needed |= {"dem", "gop"} if e == "margin" else {e}
+    if u["in_feed"] and not u.get("r_nan") and needed & set(u.get("nan_cols", ())):
+        # half-delivered row: some requested count is missing.  Under 'drop' the unit leaves the baseline join and is passed
+        # through as unexpected with the counts it does have (the missing ones count 0); under 'zero' the missing counts
+        # are 0 and the unit stands at 0 percent
+        z = dict(u)
+        for c in u["nan_cols"]:
+            z[f"r_{c}"] = 0
+        if in_base and cfg["policy"] == "zero":
+            z["pev"] = 0.0
+            return True, True, z, 0.0
+        return True, False, z, u["pev"]
     if u["in_feed"] and u.get("r_nan"):
         # a feed row without results: under 'drop' the baseline join loses the unit, so it is in the feed but not in the
         # (dropped) join = unexpected; under 'zero' it counts as 0 votes at 0 percent
